@@ -545,6 +545,7 @@ func scenarios(th bool) (out []scenario, ties int) {
 
 func TestCheck(t *testing.T) {
 	r := rep.New("C17", "exploration")
+	gate.ReportHangs(r)
 	seed := r.Seed()
 	if seed == 0 {
 		seed = 1
